@@ -107,10 +107,14 @@ def call_repo(name, fn, **kw):
     `numba_transient_retry`."""
     from vlib.result import RepoRaised, repo_call
     last = None
+    before = snapshot(kw)
+    del LAST_MUTATION[:]
     for attempt in range(3):
         try:
             with repo_call(name):
-                return fn(**kw)
+                res = fn(**kw)
+            LAST_MUTATION.extend(differences(before, kw, name))
+            return res
         except RepoRaised as e:
             if isinstance(e.exc, AssertionError) and str(e.exc).startswith('Sizes of '):
                 TRANSIENT_RETRIES['count'] += 1
@@ -118,6 +122,57 @@ def call_repo(name, fn, **kw):
                 continue
             raise
     raise last
+
+
+# ---- "a call must not modify its arguments" ------------------------------------------------------------------------
+LAST_MUTATION = []      # filled by call_repo: names of keyword arguments the last call modified in place
+
+
+def snapshot(obj):
+    """Deep copy of an argument structure: ndarrays are copied, dict-likes (python or numba typed dicts) become python
+    dicts, tuples/lists become tuples; scalars, strings, None and callables are kept."""
+    if isinstance(obj, np.ndarray):
+        return obj.copy()
+    if hasattr(obj, 'items') and hasattr(obj, 'keys'):
+        return {k: snapshot(v) for k, v in obj.items()}
+    if isinstance(obj, (tuple, list)):
+        return tuple(snapshot(v) for v in obj)
+    return obj
+
+
+def differences(before, after, path='arg'):
+    """Paths at which `after` (the live objects) differs from `before` (a snapshot); bit-wise for arrays/floats."""
+    out = []
+    if isinstance(before, np.ndarray):
+        a = np.asarray(after)
+        if a.shape != before.shape or not np.array_equal(a, before, equal_nan=True):
+            out.append(path)
+    elif isinstance(before, dict):
+        try:
+            keys_after = list(after.keys())
+        except Exception:
+            return [path]
+        if set(keys_after) != set(before.keys()):
+            out.append(path + '<keys>')
+        for k in before:
+            if k in keys_after:
+                out.extend(differences(before[k], after[k], '%s[%r]' % (path, k)))
+    elif isinstance(before, tuple):
+        if not isinstance(after, (tuple, list)) or len(after) != len(before):
+            out.append(path)
+        else:
+            for i, (x, y) in enumerate(zip(before, after)):
+                out.extend(differences(x, y, '%s[%d]' % (path, i)))
+    elif isinstance(before, (float, int, complex, np.floating, np.integer)) and not isinstance(before, bool):
+        if not (before == after or (before != before and after != after)):
+            out.append(path)
+    return out
+
+
+def check_not_mutated(c, fn_name):
+    """Collector clause for the last call_repo call."""
+    c.check(not LAST_MUTATION, {'clause': 'inputs_not_mutated', 'fn': fn_name},
+            '%s modified its caller\'s argument(s) in place: %s' % (fn_name, ', '.join(LAST_MUTATION[:6])))
 
 
 def second_opinion(modname, inner, case):
@@ -282,7 +337,16 @@ def point_strategy():
     })
 
 
-def tide_case_strategy(tier, kinds=('single',), array_fraction=3, finding_weight=1.0):
+ROUTES = st.fixed_dictionaries({
+    # how the same physical state is handed to the repository (C11): every route must give the canonical route's rates
+    'orbit': st.sampled_from(['frequency', 'frequency', 'period']),
+    'spin': st.tuples(st.sampled_from(['frequency', 'period']), st.sampled_from(['frequency', 'period'])).map(list),
+    'none_tuple': st.booleans(),       # dual: an all-None spin tuple is passed as (None, None) instead of None
+    'entry': st.sampled_from(['quick', 'quick', 'from_dict']),
+})
+
+
+def tide_case_strategy(tier, kinds=('single',), array_fraction=3, finding_weight=1.0, routes=False):
     rheos, truncs, lmaxs, amodes = shard_config(tier)
     body = body_strategy(rheos, finding_weight)
     scalar_pts = st.lists(point_strategy(), min_size=1, max_size=1)
@@ -297,6 +361,7 @@ def tide_case_strategy(tier, kinds=('single',), array_fraction=3, finding_weight
             'e_none': st.booleans(),      # scalar e == 0 is passed as eccentricity=None (the documented default)
             'bodies': st.tuples(body, body).map(list),
             'pts': array_pts if as_array else scalar_pts,
+            **({'routes': ROUTES} if routes else {}),
         })
     return weighted([build(False), build(True)], [array_fraction, 1])
 
@@ -309,6 +374,12 @@ def case_in_domain(case):
             return False
         if len(case['bodies']) != 2 or not (1 <= len(case['pts']) <= 4):
             return False
+        if 'routes' in case:
+            r = case['routes']
+            if r['orbit'] not in ('frequency', 'period') or r['entry'] not in ('quick', 'from_dict') \
+                    or len(r['spin']) != 2 or any(x not in ('frequency', 'period') for x in r['spin']) \
+                    or not isinstance(r['none_tuple'], bool):
+                return False
         if case['as_array'] is False and len(case['pts']) != 1:
             return False
         for b in case['bodies']:
@@ -366,6 +437,11 @@ class Body:
         self.ratio = np.array([float(p['spin_ratio'][idx]) for p in pts])
 
 
+def _days2rads(p):
+    from TidalPy.utilities.conversions import days2rads
+    return np.array([float(days2rads(float(x))) for x in np.atleast_1d(p)])
+
+
 class Setup:
     """Numbers derived from a case dict (all numpy arrays of length len(pts))."""
 
@@ -405,6 +481,17 @@ class Setup:
             if mode in ('e', 'n', 'visc', 'spin'):
                 if b.obl is not None:
                     b.obl = b.obl[0] * np.ones(self.k)
+        # input routes (C11): a quantity handed over as a period [days] is converted by the repository with days2rads
+        # (checked by C17); the REQUESTED state is therefore the frequency days2rads(period), computed here with the same
+        # function so that the canonical (all-frequency) call describes bit-for-bit the same state
+        rt = case.get('routes') or {}
+        self.routes = rt
+        self.entry = rt.get('entry', 'quick')
+        self.none_tuple = bool(rt.get('none_tuple', False))
+        self.P_orb = None
+        if rt.get('orbit') == 'period':
+            self.P_orb = 2.0 * math.pi / (self.n * 86400.0)
+            self.n = _days2rads(self.P_orb)
         # the semi-major axis as Kepler's third law gives it for the mean motion actually passed
         self.a = (G_SI * self.M_total / self.n ** 2) ** (1.0 / 3.0)
         for b in self.bodies:
@@ -414,6 +501,10 @@ class Setup:
                 b.spin = b.ratio[0] * self.n[0] * np.ones(self.k)      # the spin rate is passed as one float
             else:
                 b.spin = b.ratio * self.n
+            b.P_spin = None
+            if not b.sync and (rt.get('spin') or ['frequency', 'frequency'])[b.idx] == 'period' and np.all(b.spin != 0.0):
+                b.P_spin = 2.0 * math.pi / (b.spin * 86400.0)
+                b.spin = _days2rads(b.P_spin)
             b.fixed_dt = None if b.spec['dt_factor'] is None else \
                 (10.0 ** b.spec['dt_factor']) / (b.fixed_q * float(self.n[0]))
             b.host_mass = (self.bodies[1 - b.idx].mass if dual else self.host_mass)
@@ -433,8 +524,9 @@ class Setup:
         return float(v[0])
 
 
-def single_kwargs(su, body, j=None, derivatives=True):
-    """Keyword arguments of quick_tidal_dissipation for `body` of set-up `su` (j: one element as scalars)."""
+def single_kwargs(su, body, j=None, derivatives=True, canonical=False):
+    """Keyword arguments of quick_tidal_dissipation for `body` of set-up `su` (j: one element as scalars);
+    canonical=True: every quantity as a frequency, whatever the case's routes say."""
     kw = dict(host_mass=body.host_mass, target_radius=body.R, target_mass=body.mass, target_gravity=body.g,
               target_density=body.rho, target_moi=body.moi,
               rheology=body.rheology, eccentricity=su.arr(su.e, 'e', j),
@@ -449,7 +541,13 @@ def single_kwargs(su, body, j=None, derivatives=True):
         kw.update(viscosity=su.arr(body.visc, 'visc', j), shear_modulus=su.arr(body.shear, 'shear', j),
                   complex_compliance_inputs=body.inputs)
     if not body.sync:
-        kw['spin_frequency'] = su.arr(body.spin, 'spin', j)
+        if body.P_spin is not None and not canonical:
+            kw['spin_period'] = su.arr(body.P_spin, 'spin', j)
+        else:
+            kw['spin_frequency'] = su.arr(body.spin, 'spin', j)
+    if su.P_orb is not None and not canonical:
+        del kw['orbital_frequency']
+        kw['orbital_period'] = su.arr(su.P_orb, 'n', j)
     if body.obl is not None:
         kw['obliquity'] = su.arr(body.obl, 'obl', j)
     if su.e_none:
@@ -457,7 +555,26 @@ def single_kwargs(su, body, j=None, derivatives=True):
     return kw
 
 
-def dual_kwargs(su, j=None):
+def single_from_dict_kwargs(kw):
+    """quick_tidal_dissipation keywords -> single_dissipation_from_dict_or_world_instance keywords."""
+    kw = dict(kw)
+    host = {'mass': kw.pop('host_mass')}
+    sec = {'radius': kw.pop('target_radius'), 'mass': kw.pop('target_mass'), 'gravity_surface': kw.pop('target_gravity'),
+           'density_bulk': kw.pop('target_density'), 'moi': kw.pop('target_moi')}
+    kw.pop('calculate_orbit_spin_derivatives', None)
+    return dict(kw, host=host, secondary=sec)
+
+
+def dual_from_dict_kwargs(kw):
+    """quick_dual_body_tidal_dissipation keywords -> dual_dissipation_from_dict_or_world_instance keywords."""
+    kw = dict(kw)
+    radii, masses, grav, dens, mois = (kw.pop(x) for x in ('radii', 'masses', 'gravities', 'densities', 'mois'))
+    worlds = [{'radius': radii[i], 'mass': masses[i], 'gravity_surface': grav[i], 'density_bulk': dens[i], 'moi': mois[i]}
+              for i in range(2)]
+    return dict(kw, host=worlds[0], secondary=worlds[1])
+
+
+def dual_kwargs(su, j=None, canonical=False):
     b0, b1 = su.bodies
     s = lambda v, name: su.arr(v, name, j)  # noqa: E731
     visc, shear, inputs, rheos, k2s, qs, dts = [], [], [], [], [], [], []
@@ -478,13 +595,45 @@ def dual_kwargs(su, j=None):
               mois=(b0.moi, b1.moi), viscosities=tuple(visc), shear_moduli=tuple(shear), rheologies=tuple(rheos),
               complex_compliance_inputs=tuple(inputs),
               obliquities=tuple(None if b.obl is None else s(b.obl, 'obl') for b in (b0, b1)),
-              spin_frequencies=tuple(None if b.sync else s(b.spin, 'spin') for b in (b0, b1)),
+              spin_frequencies=tuple(None if (b.sync or (b.P_spin is not None and not canonical)) else s(b.spin, 'spin')
+                                     for b in (b0, b1)),
               tidal_scales=(b0.tidal_scale, b1.tidal_scale), fixed_k2s=tuple(k2s), fixed_qs=tuple(qs),
               fixed_dts=tuple(dts), eccentricity=s(su.e, 'e'), orbital_frequency=s(su.n, 'n'),
               max_tidal_order_l=su.l_max, eccentricity_truncation_lvl=su.trunc)
+    if not canonical:
+        periods = tuple(None if (b.sync or b.P_spin is None) else s(b.P_spin, 'spin') for b in (b0, b1))
+        if any(p is not None for p in periods) or su.none_tuple:
+            kw['spin_periods'] = periods
+        if all(f is None for f in kw['spin_frequencies']) and not su.none_tuple:
+            del kw['spin_frequencies']          # the default None instead of an explicit (None, None)
+        if su.P_orb is not None:
+            del kw['orbital_frequency']
+            kw['orbital_period'] = s(su.P_orb, 'n')
     if su.e_none:
         del kw['eccentricity']
     return kw
+
+
+def variant_body(su, case):
+    """A second body for the same orbit/spin state: rheology, rheology parameters, viscosity, shear, tidal_scale, k2, Q, dt
+    of the case's bodies[1]; radius, density, mass, spin, obliquity of bodies[0] (C10 `direct`: collapse the same mode
+    terms for another rheology)."""
+    b0 = su.bodies[0]
+    v = Body(case['bodies'][1], 1, case['pts'], su.as_array)
+    for name in ('R', 'rho', 'mass', 'g', 'moi', 'sync', 'use_obl', 'obl', 'ratio', 'spin', 'host_mass', 'P_spin'):
+        setattr(v, name, getattr(b0, name))
+    v.idx = 0
+    v.table_on = getattr(b0, 'table_on', False)
+    if su.as_array in ('e', 'n', 'spin'):
+        v.visc = v.visc[0] * np.ones(su.k)
+        v.shear = v.shear[0] * np.ones(su.k)
+    v.fixed_dt = None if v.spec['dt_factor'] is None else (10.0 ** v.spec['dt_factor']) / (v.fixed_q * float(su.n[0]))
+    return v
+
+
+def has_routes(su):
+    """Does the case use any non-canonical input route (so that a canonical comparison call is worth making)?"""
+    return su.P_orb is not None or any(b.P_spin is not None for b in su.bodies) or su.entry != 'quick' or su.none_tuple
 
 
 # ---------------------------------------------------------------------------------------------------
